@@ -243,6 +243,10 @@ pub struct Case {
     /// a declared coding is decoded does not depend on the media type or anything else)
     #[serde(default)]
     pub other: u8,
+    /// the server keeps the connection open behind the last body byte (Length / Chunked framing): the
+    /// end of the body is reported without asking the connection for more
+    #[serde(default)]
+    pub keep_open: bool,
 }
 
 const OTHER_FIELDS: [&str; 7] = [
@@ -414,12 +418,17 @@ enum Obs {
     Done(Vec<u8>),
     Err(Vec<u8>, String),
     Panic(String),
+    /// the connection was asked for bytes behind a complete, framed body
+    Waited(String),
 }
 
 fn run(c: &Case, s: &Stream) -> (Obs, Vec<u8>, bool) {
     let (wire, raw, damaged) = build_wire(c, s);
     let mut script = Script::plain(wire);
     script.policy = c.policy.clone();
+    if c.keep_open {
+        script.end = End::Pause;
+    }
     let _w = World::single(script, false);
     let read = c.read;
     let head_request = c.head_request;
@@ -469,7 +478,11 @@ fn run(c: &Case, s: &Stream) -> (Obs, Vec<u8>, bool) {
             }
         }
     });
-    (r.unwrap_or_else(Obs::Panic), raw, damaged)
+    let obs = r.unwrap_or_else(Obs::Panic);
+    if c.keep_open && _w.shared(0).lock().unwrap().asked_beyond_pause {
+        return (Obs::Waited(short(&obs)), raw, damaged);
+    }
+    (obs, raw, damaged)
 }
 
 fn judge(c: &Case, s: &Stream) -> (String, Option<(String, String)>) {
@@ -480,6 +493,12 @@ fn judge(c: &Case, s: &Stream) -> (String, Option<(String, String)>) {
             Obs::Done(b) if b.is_empty() => ("head-empty".into(), None),
             o => ("head-bad".into(), v("head-not-passed-through", format!("HEAD response with a coding header: {o:?}"))),
         };
+    }
+    if let Obs::Waited(o) = &obs {
+        return (
+            "waited".into(),
+            v("end-waits-for-more", format!("the framed body was complete and the server kept the connection open: the client asked the connection for more bytes (a stall up to the read timeout); outcome {o}")),
+        );
     }
     if c.passthrough.is_some() {
         return match obs {
@@ -526,6 +545,7 @@ fn judge(c: &Case, s: &Stream) -> (String, Option<(String, String)>) {
             ),
         ),
         Obs::Panic(p) => ("panic".into(), v("panic", p)),
+        Obs::Waited(_) => unreachable!(),
     }
 }
 
@@ -535,6 +555,7 @@ fn short(o: &Obs) -> String {
         Obs::Done(b) => format!("Ok, {} bytes", b.len()),
         Obs::Err(b, e) => format!("{} bytes then Err({e})", b.len()),
         Obs::Panic(p) => format!("panic {p}"),
+        Obs::Waited(o) => format!("asked beyond the end of the body; {o}"),
     }
 }
 
@@ -557,6 +578,7 @@ fn cases_for(s: &Stream, tier: Tier) -> Vec<Case> {
         no_announce: 0,
         status: 0,
         other: 0,
+        keep_open: false,
     };
     let nsp = spellings(s.coding).len();
     let head_len = 60; // heads are 40..80 bytes; cuts are placed relative to the end of the wire
@@ -674,6 +696,25 @@ fn cases_for(s: &Stream, tier: Tier) -> Vec<Case> {
             }
             for r in reads.iter().copied() {
                 v.push(mk(framing, 0, p.clone(), r, Damage::FramingOnly));
+            }
+        }
+    }
+    // the server keeps the connection open behind a complete framed body: the end is reported at once
+    for framing in [Framing::Length, Framing::Chunked] {
+        for p in [Policy::default(), Policy { cuts: vec![], uniform: Some(1) }, Policy { cuts: vec![], uniform: Some(7) }] {
+            if s.data.len() > 100_000 && p.uniform == Some(1) {
+                continue;
+            }
+            for r in reads.iter().copied() {
+                let mut c = mk(framing, 0, p.clone(), r, Damage::None);
+                c.keep_open = true;
+                v.push(c);
+            }
+            if s.name.contains(".l6.") || s.name.contains(".l0.") {
+                let mut c = mk(framing, 0, p.clone(), ReadMode::Bytes, Damage::None);
+                c.keep_open = true;
+                c.passthrough = Some("identity".into());
+                v.push(c);
             }
         }
     }
